@@ -142,6 +142,10 @@ class MachO(BinFormat):
         f.seek(0)
         while lcsize < self.header.sizeofcmds:
             cmd = struct_load_command(f, offset)
+            if cmd.cmdsize < 8:
+                # a command cannot be smaller than its own header
+                # (and a size of 0 would never advance):
+                raise MachOError("bad load command size:\n%s" % cmd)
             data = f[offset : offset + cmd.cmdsize]
             offset += cmd.cmdsize
             lcsize += cmd.cmdsize
